@@ -26,7 +26,7 @@ ASSUMPTIONS = [
     'the reference model (vf/model.py) encodes the documented meaning of each edit; every model rule cites a docstring',
     'an edit the model considers valid but the library refuses with PyCdlibInvalidInput is an over-refusal: skipped, counted, and any failure of that program is re-confirmed on the refusal-free program',
     'bytes 8..63 of files carrying a boot info table are compared by C11, not here',
-    'files > 4 GiB are exercised only in the thorough tier of the huge-file check (see DESIGN.md)',
+    'files > 4 GiB: one case per quick run, eight per thorough run (pattern source, sparse image file, streaming compare through every path kind)',
 ]
 SHARDS = {'quick': 16, 'thorough': 16}
 CASES = {'quick': 200, 'thorough': 6000}
@@ -34,7 +34,7 @@ NONTRIV = {'removal', 'cross-namespace-link', 'hard-link', 'relocation', 'eltori
 
 
 def strategy(tier):
-    w = {'mixed': 5, 'growshrink': 2, 'deep': 2, 'links': 3, 'boot': 3}
+    w = {'mixed': 5, 'growshrink': 2, 'deep': 2, 'links': 3, 'boot': 3, 'exactfill': 2}
     if tier == 'thorough':
         w['manydirs'] = 1
     return st.tuples(gen.any_profile(reopen_ok=False, weights=w, with_manydirs=(tier == 'thorough')), st.sampled_from([1, 7, 512, 2048, 8192, 70000]))
@@ -159,17 +159,81 @@ def run_case(case, col):
         col.fail(sig, clause, msg, [program, blocksize])
 
 
+HUGE_DELTAS = [5000, 1, 2048, 0xfffff800 + 1, 2049, 4096, 70000, 0xfffff800]
+
+
+def huge_case(k, col):
+    """One > 4 GiB (multi-extent) file between two small ones, in all four namespaces, written to a
+    sparse file object, reopened from it and read back through every path kind (streaming compare)."""
+    import io
+    import pycdlib
+    from vf.huge import PatternSource, SparseFile, VerifySink
+    shim.install('UTC')
+    size = 0xfffff800 + HUGE_DELTAS[k % len(HUGE_DELTAS)]
+    case = {'huge': k, 'size': size}
+    col.case(case, True, ['huge-file', 'huge-extents-%d' % ((size + 0xfffff7ff) // 0xfffff800)])
+    try:
+        iso = pycdlib.PyCdlib()
+        iso.new(interchange_level=3, joliet=3, rock_ridge=['1.09', '1.12'][k % 2], udf='2.60')
+        iso.add_fp(io.BytesIO(b'a' * 10), 10, '/A.;1', rr_name='a', joliet_path='/a', udf_path='/a')
+        iso.add_fp(PatternSource(7 + k, size), size, '/BIG.;1', rr_name='big', joliet_path='/big', udf_path='/big')
+        iso.add_fp(io.BytesIO(b'z' * 3000), 3000, '/Z.;1', rr_name='z', joliet_path='/z', udf_path='/z')
+        if k % 3 == 1:
+            iso.rm_file(iso_path='/A.;1')
+        out = SparseFile()
+        iso.write_fp(out, blocksize=1 << 20)
+        iso.close()
+    except Exception as e:  # noqa
+        col.fail('C01/huge/build/' + exc_signature(e), 'huge', 'building / mastering an image with a %d-byte file raised %s: %s' % (size, type(e).__name__, e), case)
+        return
+    try:
+        new = pycdlib.PyCdlib()
+        new.open_fp(out)
+    except Exception as e:  # noqa
+        col.fail('C01/huge/reopen/' + exc_signature(e), 'huge', 'open_fp of the mastered image raised %s: %s' % (type(e).__name__, e), case)
+        return
+    for key, p in (('iso_path', '/BIG.;1'), ('rr_path', '/big'), ('joliet_path', '/big'), ('udf_path', '/big')):
+        v = VerifySink(7 + k, size)
+        try:
+            new.get_file_from_iso_fp(v, blocksize=1 << 20, **{key: p})
+        except Exception as e:  # noqa
+            col.fail('C01/huge/%s/read/%s' % (key, exc_signature(e)), 'huge', 'reading the %d-byte file through %s raised %s: %s' % (size, key, type(e).__name__, e), case)
+            continue
+        if v.pos != size:
+            col.fail('C01/huge/%s/length' % key, 'huge', 'the %d-byte file read back through %s has %d bytes' % (size, key, v.pos), case)
+        elif v.first_bad is not None:
+            col.fail('C01/huge/%s/content' % key, 'huge', 'the %d-byte file read back through %s differs from what was supplied at offset %d' % (size, key, v.first_bad), case)
+    for key, p, want in (('iso_path', '/Z.;1', b'z' * 3000), ('udf_path', '/z', b'z' * 3000), ('joliet_path', '/z', b'z' * 3000)):
+        o = io.BytesIO()
+        try:
+            new.get_file_from_iso_fp(o, **{key: p})
+            if o.getvalue() != want:
+                col.fail('C01/huge/neighbour-file/%s/content' % key, 'huge', 'the small file after the huge one reads back wrongly through %s' % key, case)
+        except Exception as e:  # noqa
+            col.fail('C01/huge/neighbour-file/%s/%s' % (key, exc_signature(e)), 'huge', 'reading the small file after the huge one raised %r' % (e,), case)
+    try:
+        new.close()
+    except Exception:
+        pass
+
+
 def shard(seed, tier, shard_no, nshards):
     col = Collector()
     drive(strategy(tier), CASES[tier], seed * 64 + shard_no, lambda case: run_case(case, col))
+    if (tier == 'quick' and shard_no == 0) or (tier == 'thorough' and shard_no < 8):
+        huge_case(seed + shard_no, col)
     return col.result()
 
 
 def replay(case, col):
+    if isinstance(case, dict) and 'huge' in case:
+        return huge_case(case['huge'], col)
     run_case((case[0], case[1]), col)
 
 
 def shrink(case, sig):
+    if isinstance(case, dict):
+        return case
     program, blocksize = case
 
     base = sig.split('/known:')[0]
